@@ -108,6 +108,9 @@ def gen_out(ck, limit, step):
     for i in range(10 if quick else 100):
         add([["send", {"kind": "badreply", "size": limit - rng.randrange(0, 400), "seed": 5, "plain": True}],
              ["send", {"kind": "busy"}]], "badkey_near_limit")
+        add([["send", {"kind": "failcall", "size": rng.choice([0, 3, 200, limit - rng.randrange(60, 400)]), "seed": rng.randrange(0, 8),
+                       "plain": True}],
+             ["send", {"kind": "busy"}]], "refusing_value")
     return cases
 
 
